@@ -29,6 +29,7 @@ TEXTS = [NOITEM, item("q", "txt"), item("q", 'a "q" b'), item("q", ""), item("l"
 NAMES = ["a", "OK", "NO x", "{5}", 'a"b', "c\\d", "x ACTIVE", "é", "b"]
 BODIES = ["", "a", "a\r\n", "keep;\r\n", "OK x\r\n", "l1\r\nNO\r\n", "{5}\r\nabc\r\n", "BYE", '"q"\r\n', "x ACTIVE\r\n",
           "é\r\n", "a\nb\n", "l1\r\n\r\nl3\r\n", "a\r\nb", "{3}\r\n", "OK\r\nOK\r\n",
+          "\ufeffkeep;\r\n", "\ufeff# c\r\nstop;\r\n", "\ufeff", " \tkeep;\r\n", "\r\nkeep;\r\n",      # leading BOM / blanks / empty first line belong to the script
           "a\u2028b\r\nc\r\n", "x\x0cy\r\n", "v\x0bt\r\n", "n\u0085m\r\n", "p\x1cq\x1dr\x1es\r\n", "# c\r\nkeep;"]
 
 
